@@ -148,6 +148,21 @@ def all_functions(src):
     return out
 
 
+def canon_locals(body, decls):
+    """Alpha-rename locals to canonical names: for every declaration pattern (one capture group = the declared identifier) each
+    identifier it declares anywhere in `body` is replaced, as a whole word, by the canonical name.  Renaming a local is behaviour
+    preserving; a clash with another identifier of the body raises."""
+    for rx, canon in decls:
+        names = set(re.findall(rx, body))
+        for nm in names:
+            if nm == canon:
+                continue
+            if canon not in names and re.search(r"\b%s\b" % re.escape(canon), body):
+                raise ExtractError("cannot canonicalise local %s -> %s: name already used" % (nm, canon))
+            body = re.sub(r"\b%s\b" % re.escape(nm), canon, body)
+    return body
+
+
 def extract(tree):
     raw = csrc.read(tree, "src/core/parse.c")
     src = csrc.strip_comments(raw)
@@ -358,10 +373,15 @@ def extract(tree):
     body = csrc.func_body(pp, "print_jdn_one")
     if not re.search(r"case\s+JANET_SYMBOL\s*:\s*case\s+JANET_KEYWORD\s*:\s*if\s*\(\s*contains_bad_chars\s*\(\s*janet_unwrap_keyword\s*\(x\)\s*,\s*janet_type\s*\(x\)\s*==\s*JANET_SYMBOL\s*\)\s*\)\s*return\s+1\s*;", body):
         raise ExtractError("print_jdn_one: symbol/keyword refusal not recognised")
-    if not re.search(r"if\s*\(\s*isnan\s*\(num\)\s*\)\s*return\s+1\s*;\s*if\s*\(\s*isinf\s*\(num\)\s*\)\s*return\s+1\s*;", body):
+    if not re.search(r"if\s*\(\s*isnan\s*\((\w+)\)\s*\)\s*return\s+1\s*;\s*if\s*\(\s*isinf\s*\(\1\)\s*\)\s*return\s+1\s*;", body):
         raise ExtractError("print_jdn_one: nan/inf refusal not recognised")
     # ---- print_jdn_one: delimiters, separators, depth budget (the model PP/Jdn.lean hard-codes them; Props.C11.jdn_printer_shape pins them)
-    jb = norm(body.replace("' '", "'SP'"))
+    jb = norm(canon_locals(body, [
+        (r"JanetTuple\s+(\w+)\s*=\s*janet_unwrap_tuple", "t"), (r"\bint\s+(\w+)\s*=\s*janet_tuple_flag", "isb"),
+        (r"JanetArray\s*\*\s*(\w+)\s*=\s*janet_unwrap_array", "a"), (r"JanetTable\s*\*\s*(\w+)\s*=\s*janet_unwrap_table", "tab"),
+        (r"JanetStruct\s+(\w+)\s*=\s*janet_unwrap_struct", "st"), (r"\bint\s+(\w+)\s*=\s*1\s*;\s*for\b", "isFirst"),
+        (r"const\s+JanetKV\s*\*\s*(\w+)\s*=", "kv"), (r"for\s*\(\s*int32_t\s+(\w+)\s*=\s*0\s*;", "i"),
+        (r"\bdouble\s+(\w+)\s*=\s*janet_unwrap_number", "num")]).replace("' '", "'SP'"))
 
     def ch(tok):
         return 32 if tok == "SP" else cchar("'" + tok + "'")
